@@ -1,7 +1,7 @@
 CONSTANTS
   Ids = {"A", "B"}
-  Carriers = {1, 2, 3}
-  Plan <- PlanThree
+  Carriers = {1, 2}
+  Plan <- PlanTwo
   Segs = {1, 2}
   QCap = 1
   RingCap = 1
